@@ -5,7 +5,7 @@
    [H] is any hash function with 32-byte output; [reach H sc S ss]: the session
    state [ss] is reached by trie.New on store [S] (scheme [sc]) followed by ANY
    history of Update / Delete / Get. *)
-From GV Require Import Lib.Tactics Trie.Node Trie.Ops Trie.Hash Trie.Commit Trie.CommitProofs Trie.CommitTracer.
+From GV Require Import Lib.Tactics Trie.Hex Trie.Node Trie.Ops Trie.Hash Trie.OpsProofs Trie.Commit Trie.CommitProofs Trie.CommitTracer Trie.CommitReads Trie.CommitSim.
 Local Open Scope N_scope.
 
 (* the returned root is Trie.Hash() of the in-memory trie; for a short/full root
@@ -103,21 +103,90 @@ Proof. exact commit_applied_path. Qed.
 Print Assumptions C07_commit_exact_path_partial.
 
 (* TARGET commit_reads_back :
-     forall k, get (open root' (apply nodeset store)) k = get tnew k
-   PROVED PART: the store after applying holds, at the empty path, the encoding of
-   the in-memory new root and its hash is the returned root (trie.New(root') finds
-   the node it asks for); together with C07_collapse_preserves_encoding every
-   child reference inside a written blob is the hash of the child's own blob.
-   MISSING (correspondence + Go oracle: the reopened trie reads and iterates
-   exactly the reference map): the induction down the reopened trie, which needs
-   decode_node (node_enc n) = n for the written nodes and the same session
-   invariant as above. *)
-Theorem C07_commit_reads_back_partial : forall H, (forall x, length (H x) = 32%nat) ->
-  forall S ss r ns, commit H ss = Some (r, Some ns) -> is_sf (s_root ss) = true ->
-  exists e, am_get [] (apply_nodeset PathScheme ns S) = Some e /\ H e = r /\
-            node_enc H (s_root ss) = Some e /\ hash_root H (s_root ss) = Some r.
-Proof. exact commit_root_readable. Qed.
+     forall k, get (open root' (apply nodeset store)) k = get tnew k      (path scheme)
+   PROVED for every session state satisfying the session invariant
+   [sinv H S ss F]: the in-memory trie REPRESENTS a canonical ground trie F over
+   store S (hash nodes resolve to the decoded encoding of exactly their subtree,
+   clean nodes are still stored and not below any path of the deletion set).
+   Then: reopening at the returned root from the updated store succeeds, and every
+   byte key reads there the SAME value as in the in-memory trie before the commit,
+   namely the pure lookup of F.  Uses c08's decode_enc and collision freedom only
+   against the empty-root preimage.
+   The invariant is established by trie.New on a store holding F (C07_open_sinv),
+   re-established for the NEXT generation by the commit itself
+   (C07_commit_store_ok; base case C07_store_ok_empty), preserved by Get
+   (C07_get_preserves_sinv), and the representation is preserved by insert
+   together with the run of insert on the ground trie (C07_insert_preserves_rep).
+   MISSING for "every history": the analogue of C07_insert_preserves_rep for
+   delete (branch collapse with resolution of the remaining child, growth of the
+   deletion set), and that Update keeps the ground trie canonical with sizes
+   < 2^32 (follows from c06's insert_spec/delete_spec on the ground run plus a
+   size argument); the hash scheme variant.  These are covered by the
+   correspondence check and the Go oracle only. *)
+Theorem C07_commit_reads_back_partial : forall H,
+  (forall x, length (H x) = 32%nat) ->
+  (forall e, H e = H empty_root_preimage -> e = empty_root_preimage) ->
+  forall S ss F r ons key,
+    sinv H S ss F -> commit H ss = Some (r, ons) -> forallb byteb key = true ->
+    exists ss2,
+      open_trie H PathScheme (applied S ons) r = TOk ss2 /\
+      exists v t1 d1 ev1 t2 d2 ev2,
+        trie_get (resolve_of H PathScheme S) (s_root ss) key = TOk (v, t1, d1, ev1) /\
+        trie_get (resolve_of H PathScheme (applied S ons)) (s_root ss2) key = TOk (v, t2, d2, ev2) /\
+        v = lk F (keybytes_to_hex key).
+Proof. exact commit_reads_back_sinv. Qed.
 Print Assumptions C07_commit_reads_back_partial.
+
+(* after the commit the updated store holds the ground trie under the returned
+   root: every hashed node of F is stored at its path with the encoding that
+   decodes to it — the premise of the next generation *)
+Theorem C07_commit_store_ok : forall H,
+  (forall x, length (H x) = 32%nat) ->
+  forall S ss F r ons,
+    sinv H S ss F -> commit H ss = Some (r, ons) -> store_ok H (applied S ons) r F.
+Proof. exact commit_store_ok. Qed.
+Print Assumptions C07_commit_store_ok.
+
+Theorem C07_open_sinv : forall H,
+  (forall x, length (H x) = 32%nat) ->
+  (forall e, H e = H empty_root_preimage -> e = empty_root_preimage) ->
+  forall S root F, store_ok H S root F ->
+    exists ss, open_trie H PathScheme S root = TOk ss /\ sinv H S ss F.
+Proof. exact open_sinv. Qed.
+Print Assumptions C07_open_sinv.
+
+Theorem C07_store_ok_empty : forall H, store_ok H [] (H empty_root_preimage) NEmpty.
+Proof. exact store_ok_empty. Qed.
+Print Assumptions C07_store_ok_empty.
+
+Theorem C07_get_preserves_sinv : forall H,
+  (forall x, length (H x) = 32%nat) ->
+  (forall e, H e = H empty_root_preimage -> e = empty_root_preimage) ->
+  forall S ss F key v ss',
+    sinv H S ss F -> forallb byteb key = true ->
+    sess_get H PathScheme S ss key = TOk (v, ss') ->
+    sinv H S ss' F /\ v = lk F (keybytes_to_hex key).
+Proof. exact sess_get_sinv. Qed.
+Print Assumptions C07_get_preserves_sinv.
+
+(* trie.go insert on a representation of G yields a representation of the result
+   of insert on G itself (hash-node resolution is transparent), for any reader R,
+   once the rebuilt paths (prefixes of the key, onInsert paths) count as dirty *)
+Theorem C07_insert_preserves_rep : forall H,
+  (forall x, length (H x) = 32%nat) ->
+  forall R dirty dirty' (delp delp' : list N -> Prop),
+    (forall q, dirty' q = false -> dirty q = false) ->
+    (forall q, delp' q -> delp q) ->
+    forall fu n p key v d n' ev f G,
+      insert R fu n p key (NValue v) = TOk (d, n', ev) ->
+      rep H R dirty delp f p n G -> wfpos G key ->
+      (d = true -> forall q, ple q (p ++ key) -> dirty' q = true) ->
+      (forall q, In (TIns q) ev -> dirty' q = true) ->
+      exists G', rep H R dirty' delp' f p n' G' /\ (d = false -> G' = G) /\
+                 (forall fu', (length key < fu')%nat ->
+                    exists ev', insert R fu' G p key (NValue v) = TOk (d, G', ev')).
+Proof. exact insert_rep. Qed.
+Print Assumptions C07_insert_preserves_rep.
 
 (* the hypotheses are met: a two-generation history over a path-scheme store whose
    second commit returns deletions with previous values, and whose events are
